@@ -12,6 +12,7 @@ What the real code rejects (outside every statement below): bit depths other tha
 (`ValueError`; `none`), NaN samples.
 -/
 import Earverif.Proofs.C16Pcm
+import Earverif.Proofs.C16Step
 import Earverif.Proofs.C16Lists
 
 namespace Earverif.Pcm
@@ -167,6 +168,108 @@ theorem deinterleave_interleave {α} [Inhabited α] (ch : ℕ) (hch : 0 < ch) (f
       (∀ fr ∈ frames, fr.length = ch) ∧ frames.length = flat.length / ch :=
   deil_il ch hch flat h
 
+/-! ### arbitrary samples (used by C09: what a written sample reads back as) -/
+
+theorem scale_bounds (b : ℕ) (hb : Depth b) : 0 < scale b ∧ scale b < (2 : ℤ) ^ 52 := by
+  rcases hb with rfl | rfl | rfl <;> (unfold scale; norm_num)
+
+/-- Whatever float is handed to the encoder (any value, `±inf` included as `±2^1024`), the code it
+produces is a code of the depth and never the most negative one. -/
+theorem encode_isCode (b : ℕ) (hb : Depth b) (x : ℚ) :
+    IsCode b (encode b x) ∧ encode b x ≠ -(2 : ℤ) ^ (b - 1) := by
+  obtain ⟨h0, h52⟩ := scale_bounds b hb
+  obtain ⟨lo, hi⟩ := encode_range_of b h0 h52 x
+  unfold scale at lo hi
+  unfold IsCode
+  refine ⟨⟨by omega, by omega⟩, by omega⟩
+
+/-- **One quantisation step.**  For every bit depth and every sample `x ∈ [-1, 1]` (every rational,
+hence every binary64 value the real encoder can be given in that range):
+`|decode (encode x) - x| < 1/(2^(b-1) - 1) + 2^-54` — strictly less than one quantisation step from the
+truncation plus at most `2^-54` from the rounding of the final float division.  (The bound
+`≤ 1/(2^(b-1)-1)` without the `2^-54` is not provable: the decoded value is itself a rounded quotient.) -/
+theorem encode_within_step (b : ℕ) (hb : Depth b) (x : ℚ) (hx : |x| ≤ 1) :
+    |decode b (encode b x) - x| < 1 / (scale b : ℚ) + (2 : ℚ) ^ (-54 : ℤ) := by
+  obtain ⟨h0, h52⟩ := scale_bounds b hb
+  exact encode_within_step_of b h0 h52 x hx
+
+/-- Samples outside `[-1, 1]` read back as exactly `±1` (full scale). -/
+theorem encode_clipped (b : ℕ) (hb : Depth b) (x : ℚ) :
+    (1 < x → decode b (encode b x) = 1) ∧ (x < -1 → decode b (encode b x) = -1) := by
+  obtain ⟨-, hs, -, -⟩ := tables b hb
+  obtain ⟨-, -, -, -, -, -, d1, d2, -, -⟩ := specialOk_spec hs
+  obtain ⟨c1, c2⟩ := encode_clips b hb x
+  exact ⟨fun h => by rw [c1 h, d1], fun h => by rw [c2 h, d2]⟩
+
+/-- **Representable values are returned exactly**: a sample that is the decoded value of a code
+(other than the most negative one) is a fixed point of encode-then-decode. -/
+theorem decode_encode_representable (b : ℕ) (hb : Depth b) (c : ℤ) (hc : IsCode b c)
+    (hne : c ≠ -(2 : ℤ) ^ (b - 1)) : decode b (encode b (decode b c)) = decode b c := by
+  rw [C16_roundtrip b hb c hc, if_neg hne]
+
+theorem canonCode_isCode (b : ℕ) (_hb : Depth b) (c : ℤ) (hc : IsCode b c) : IsCode b (canonCode b c) := by
+  have h1 : (1 : ℤ) ≤ (2 : ℤ) ^ (b - 1) := one_le_pow₀ (by norm_num)
+  unfold canonCode IsCode at *
+  split_ifs <;> constructor <;> omega
+
+/-- **C16, byte level, totality.**  On every byte string holding whole samples neither function raises:
+`decode_pcm_samples` returns one float per sample and `encode_pcm_samples` of those floats returns a byte
+string of the original length, which is the canonical form of the input (the input itself when the most
+negative code does not occur; the most negative code included: it comes back as the negated maximum). -/
+theorem C16_roundtrip_bytes_some (b : ℕ) (hb : Depth b) (bs : List ℕ) (hbytes : ∀ x ∈ bs, x < 256)
+    (hlen : bs.length % (b / 8) = 0) :
+    ∃ cs xs out, unpack b bs = some cs ∧ decodeBytes b bs = some xs ∧ xs = cs.map (decode b) ∧
+      xs.length = bs.length / (b / 8) ∧ encodeBytes b xs = some out ∧
+      canonBytes b bs = some out ∧ out.length = bs.length ∧
+      ((∀ c ∈ cs, c ≠ -(2 : ℤ) ^ (b - 1)) → out = bs) := by
+  obtain ⟨cs, u, p, r, l⟩ := unpack_pack b hb bs hbytes hlen
+  have key : List.map (encode b) (List.map (decode b) cs) = cs.map (canonCode b) := by
+    rw [List.map_map]
+    apply List.map_congr_left
+    intro c hc
+    simp only [Function.comp, canonCode]
+    exact C16_roundtrip b hb c (r c hc)
+  obtain ⟨out, po, -, lo⟩ := pack_unpack b hb (cs.map (canonCode b)) (by
+    intro c hc
+    obtain ⟨c', hc', rfl⟩ := List.mem_map.mp hc
+    exact canonCode_isCode b hb c' (r c' hc'))
+  have hb8 : 0 < b / 8 := by rcases hb with rfl | rfl | rfl <;> norm_num
+  refine ⟨cs, cs.map (decode b), out, u, by simp [decodeBytes, u], rfl, by simp [l], ?_, ?_, ?_, ?_⟩
+  · simp only [encodeBytes, key, po]
+  · simp only [canonBytes, u, Option.bind_some, po]
+  · rw [lo, List.length_map, l]
+    exact Nat.mul_div_cancel' (Nat.dvd_of_mod_eq_zero hlen)
+  · intro hne
+    have : cs.map (canonCode b) = cs := by
+      conv_rhs => rw [← List.map_id cs]
+      apply List.map_congr_left
+      intro c hc
+      simp only [canonCode, if_neg (hne c hc), id]
+    rw [this, p] at po
+    exact (Option.some.inj po).symm
+
+/-- **Copying audio through the library's tools does not alter it.**  For every channel count and every
+byte string holding whole frames: decode → deinterleave → interleave → encode succeeds at every stage
+(no exception), yields `len / (bytes per frame)` frames of `ch` samples, and the bytes that come out are
+the canonical form of the bytes that went in — identical unless the most negative code occurs, which
+comes back as the negated maximum. -/
+theorem C16_copy_through_tools (b ch : ℕ) (hb : Depth b) (hch : 0 < ch) (bs : List ℕ)
+    (hbytes : ∀ x ∈ bs, x < 256) (hlen : bs.length % (b / 8 * ch) = 0) :
+    ∃ cs xs frames out, unpack b bs = some cs ∧ decodeBytes b bs = some xs ∧
+      deinterleave ch xs = some frames ∧
+      frames.length = bs.length / (b / 8 * ch) ∧ (∀ fr ∈ frames, fr.length = ch) ∧
+      encodeBytes b (interleave ch frames) = some out ∧ canonBytes b bs = some out ∧
+      out.length = bs.length ∧ ((∀ c ∈ cs, c ≠ -(2 : ℤ) ^ (b - 1)) → out = bs) := by
+  have hb8 : 0 < b / 8 := by rcases hb with rfl | rfl | rfl <;> norm_num
+  obtain ⟨q, hq⟩ := Nat.dvd_of_mod_eq_zero hlen
+  have hlen8 : bs.length % (b / 8) = 0 := by rw [hq, Nat.mul_assoc]; exact Nat.mul_mod_right _ _
+  obtain ⟨cs, xs, out, u, d, hx, lx, e, c, lo, hid⟩ := C16_roundtrip_bytes_some b hb bs hbytes hlen8
+  have hxl : xs.length = ch * q := by
+    rw [lx, hq, Nat.mul_assoc, Nat.mul_div_cancel_left _ hb8]
+  obtain ⟨frames, df, il, fl, fn⟩ := deinterleave_interleave ch hch xs (by rw [hxl]; exact Nat.mul_mod_right _ _)
+  refine ⟨cs, xs, frames, out, u, d, df, ?_, fl, by rw [il]; exact e, c, lo, hid⟩
+  rw [fn, hxl, hq, Nat.mul_div_cancel_left _ hch, Nat.mul_div_cancel_left _ (Nat.mul_pos hb8 hch)]
+
 /-! ### non-vacuity: concrete inputs satisfying the hypotheses, and the exceptional code -/
 
 example : Depth 24 ∧ IsCode 24 (-8388608) ∧ IsCode 24 8388607 ∧ IsCode 24 12345 := by
@@ -177,5 +280,19 @@ example : unpack 24 [0xff, 0xff, 0x7f, 0x00, 0x00, 0x80] = some [8388607, -83886
     canonBytes 24 [0x00, 0x00, 0x80] = some [0x01, 0x00, 0x80] := by decide +kernel
 example : deinterleave 2 [1, 2, 3, 4, 5, 6] = some [[1, 2], [3, 4], [5, 6]] ∧
     deinterleave 2 [1, 2, 3] = (none : Option (List (List ℤ))) := by decide +kernel
+
+example : |decode 16 (encode 16 (1 / 3)) - 1 / 3| < 1 / (scale 16 : ℚ) + (2 : ℚ) ^ (-54 : ℤ) ∧
+    encode 16 (1 / 3) = 10922 ∧ decode 16 (encode 16 (1 / 3)) ≠ 1 / 3 ∧
+    decode 24 (encode 24 (3 / 2)) = 1 ∧ decode 32 (encode 32 (-7)) = -1 := by decide +kernel
+/-- the hex digits `3fd5555555555555` are the double nearest to 1/3, and back -/
+example : (ofBits 0x3fd5555555555555).bind toBits = some 0x3fd5555555555555 ∧
+    ofBits 0x3fd5555555555555 = some (rn53 (1 / 3)) ∧ toBits (-3 / 2) = some 0xbff8000000000000 := by
+  decide +kernel
+example : ∃ cs xs frames out, unpack 24 [1, 0, 0, 0, 0, 0x80, 0xff, 0xff, 0x7f, 2, 0, 0] = some cs ∧
+    decodeBytes 24 [1, 0, 0, 0, 0, 0x80, 0xff, 0xff, 0x7f, 2, 0, 0] = some xs ∧
+    deinterleave 2 xs = some frames ∧ frames.length = 2 ∧
+    encodeBytes 24 (interleave 2 frames) = some out ∧
+    out = [1, 0, 0, 1, 0, 0x80, 0xff, 0xff, 0x7f, 2, 0, 0] :=
+  ⟨_, _, _, _, rfl, rfl, rfl, by decide +kernel, rfl, by decide +kernel⟩
 
 end Earverif.Pcm
